@@ -36,7 +36,8 @@ FORD_OPTS = dict(display=["public", "private", "protected"], proc_internals=True
 KINDS = ["variable", "parameter", "type", "subroutine", "function", "generic", "absinterface", "operator",
          "component", "binding", "binding2",        # binding2: two bindings declared by one statement
          "generic2",                                # generic2: one generic name extended by a second interface block
-         "constructor"]                             # constructor: a type and a generic interface of the same name
+         "constructor",                             # constructor: a type and a generic interface of the same name
+         "genericbody"]                             # genericbody: an interface body (external procedure) of a generic interface
 DEFAULTS = [None, "public", "private"]
 POSITIONS = ["early", "late"]
 
@@ -149,6 +150,14 @@ def build(kind, default, pos, how, ch, with_context=True, excl=()):
         body = {"k": "subroutine", "name": tname, "args": [], "prefix": [], "decls": [], "doc": None,
                 "access": acc, "access_how": where}
         decls.insert(at, {"d": "interface", "form": "abstract", "bodies": [body], "doc": None})
+    elif kind == "genericbody":
+        body = {"k": "subroutine", "name": tname, "args": ["a"], "prefix": [], "decls": [_var("a", I)], "doc": None,
+                "access": acc, "access_how": where}
+        body["decls"][0]["intent"] = "in"
+        # the generic name's own accessibility is independent of the specific's
+        g_acc = ch.choice([None, "private", "public"]) if with_context else ("private" if acc != "private" else "public")
+        decls.insert(at, {"d": "interface", "form": "generic", "name": "gen_of_target", "modprocs": [], "bodies": [body],
+                          "doc": None, "access": g_acc, "access_how": "stmt_after"})
     elif kind == "component":
         decls.insert(at, {"d": "type", "name": "t_holder", "abstract": False, "extends": None, "access": None,
                           "access_how": "attr", "sequence": False, "private_comps": default == "private",
